@@ -4,25 +4,38 @@ Engine D (bounded-exhaustive enumeration on the real classes)
   D-tcell : TCell.inspect on the product {trained profile} x {fingerprint position relative to every bound of
             that profile} x manual flag x anomaly-streak position x anergy, every pre-history driven through the
             public API (inspect / flag_manually / reset_without_confirmation).
-  D-treg  : RegulatoryTCell.evaluate on all (threat level x action) responses x rule sets x tolerance records.
-  D-train : ImmuneSystem.train_agent + inspect on every observation window over a small observation alphabet.
+  D-treg  : RegulatoryTCell.evaluate on all (threat level x action) responses x rule sets x tolerance records
+            (stability threshold 0 / 1 / 3) x how the condition callbacks spell yes / no (bool, None / str, int,
+            container) x rule duration; every response on fresh objects and again through ONE shared Treg and
+            record after different prefixes of the other responses (a nominally stateless call).
+  D-train : ImmuneSystem.train_agent + inspect on every observation window over a small observation alphabet
+            (three output shapes and no output), for system shapes (samples, minimum, window size; a window of one,
+            a window never filled) x Thymus tolerance (default, 0, fraction, huge).
 Engine A on a bare TCell ("T", explicit-state BFS run to its fixpoint)
   every history of inspect(one fingerprint per reference class) / flag_manually / reset / reset_without_confirmation
-  per profile x thresholds: both resets are applied in every reachable watcher state (after SUSPICIOUS, after
+  per profile (incl. point intervals) x thresholds (incl. 0 and 1) x with / without a used sibling watcher on the same
+  profile object: both resets are applied in every reachable watcher state (after SUSPICIOUS, after
   CONFIRMED by streak / canary / flag, after CRITICAL, while flagged, on the way to anergy and beyond).
 Engine A (explicit-state BFS, canonical-state dedup, virtual clock)
   ImmuneSystem(min_training_samples=2, min_observations=2, window_size=2) histories over record_observation /
   record_canary_result / train_agent / inspect / flag_agent / tcell.reset / tcell.reset_without_confirmation /
-  mark_agent_updated / clock advance / tolerance-rule toggles.
+  mark_agent_updated / clock advance / tolerance-rule toggles (/ register_agent again); roots include other
+  constructor values (window of one, stability threshold 0, memory capacity 1, Thymus tolerance 0).
+Engine A on two agents / two systems ("X")
+  the same histories for one agent while a second agent in the same ImmuneSystem, or an agent of the same name in a
+  second ImmuneSystem of the same process, carries a flag / streak / remembered threat / other baseline / anergy and
+  keeps being observed, inspected and flagged: each agent is judged by its own reference only.
 
-The oracle is a reference two-signal rule written from the property text.  Its anomaly streak and manual flag are
-tracked from the history of public calls alone (never from the watcher's own counters).  It reads only public values: the
-profile's bounds, the fingerprint handed to / produced for the inspection, the watcher's public `is_anergic`
-and configured thresholds, and the returned ImmuneResponse / SuppressionResult.  Every clause is one-directional:
+The oracle is a reference two-signal rule written from the property text.  Its anomaly streak, manual flag and
+dismissed false alarms are tracked from the history of public calls alone (never from the watcher's own counters), and
+it judges against its own copy of the baseline and thresholds the watcher was created with (not what the live watcher
+holds later).  It reads only public values: the profile's bounds at construction / right after training, the
+fingerprint handed to / produced for the inspection, the watcher's public `is_anergic`, and the returned
+ImmuneResponse / SuppressionResult.  Every clause is one-directional:
     (a) CONFIRMED/CRITICAL or isolate/shutdown  =>  baseline violated AND (canary failed OR anomaly streak >=
         configured threshold OR manual flag OR remembered threat)
     (b) fingerprint strictly inside every bound  =>  NONE / IGNORE
-    (c) watcher reports is_anergic              =>  NONE / IGNORE
+    (c) watcher reports is_anergic, or as many false alarms were dismissed as its anergy threshold  =>  NONE / IGNORE
     (d) Treg: CRITICAL => action unchanged; action never raised; lowered by at most one step
     (e) train_agent returned POSITIVE           =>  the immediately following inspect is NONE / IGNORE
 A value within 1e-9 of a bound is "boundary": it is treated as violating for (a) and as not-inside for (b), i.e.
@@ -122,11 +135,47 @@ class Ref:
     or in-baseline inspection), manual flag, remembered threats.  `has_memory=False` is a bare TCell: no immune
     memory stands behind it, so "a remembered threat" can never be its second signal."""
 
-    def __init__(self, has_memory=True):
+    def __init__(self, has_memory=True, profile=None, rt=None, at=None):
         self.streak = 0
         self.flag = False
         self.mem = set()
         self.has_memory = has_memory
+        # what the watcher was configured with when it was created (never re-read from the live watcher):
+        self.profile = profile      # private copy of the baseline as trained / as handed to the constructor
+        self.rt = rt                # repeated-anomaly threshold
+        self.at = at                # number of dismissed false alarms that desensitises the watcher
+        # desensitisation from the calls alone: a false alarm is an inspection that was certainly outside the
+        # baseline with no arguable second signal, directly followed by reset_without_confirmation()
+        self.fa = 0
+        self.alarm = False
+        self.just_trained = False
+
+    def reset(self):
+        self.streak = 0
+        self.flag = False
+        self.alarm = False
+
+    def dismiss(self):              # reset_without_confirmation
+        if self.alarm:
+            self.fa += 1
+        self.alarm = False
+        self.streak = 0
+
+    def new_watcher(self, profile, rt, at):
+        """Successful (re)training: a new watcher on a new baseline. Anomalies were relative to the previous
+        baseline and false alarms belonged to the previous watcher; flag and memory stay (permissive)."""
+        self.profile, self.rt, self.at = profile, rt, at
+        self.streak = 0
+        self.fa = 0
+        self.alarm = False
+
+    @property
+    def desensitised(self):
+        return self.at is not None and self.fa >= self.at
+
+    def canon(self):
+        return (min(self.streak, self.rt) if self.rt is not None else self.streak, self.flag, tuple(sorted(self.mem)),
+                min(self.fa, self.at) if self.at is not None else self.fa, self.alarm, self.just_trained)
 
 
 def silent(resp):
@@ -137,8 +186,10 @@ def escalated(resp):
     return resp.threat_level in (CONF, CRIT) or resp.action in (ResponseAction.ISOLATE, ResponseAction.SHUTDOWN)
 
 
-def judged_inspect(ref, profile, fp, rep_threshold, anergic, call, just_trained=False):
-    """Run one inspection (`call()` -> ImmuneResponse) under the reference rule. Returns (resp, viols, info)."""
+def judged_inspect(ref, fp, anergic, call, just_trained=False):
+    """Run one inspection (`call()` -> ImmuneResponse) under the reference rule, judged against the baseline and
+    thresholds the watcher was created with (ref.profile / ref.rt / ref.at). Returns (resp, viols, info)."""
+    profile, rep_threshold = ref.profile, ref.rt
     out, bd, c_out, c_bd = position(profile, fp)
     viol_perm = (out + bd) > 0          # possibly violating (boundary counts)
     strict_in = not viol_perm           # certainly inside
@@ -148,6 +199,8 @@ def judged_inspect(ref, profile, fp, rep_threshold, anergic, call, just_trained=
         ref.streak = 0
     remembered = ref.has_memory and (fp.vocabulary_hash, fp.structure_hash) in ref.mem
     second = bool(c_out or c_bd or ref.streak >= rep_threshold or ref.flag or remembered)
+    desens = ref.desensitised           # from the history of dismissed false alarms, before this inspection
+    ref.alarm = out > 0 and not second  # certainly signal 1, certainly no signal 2: dismissing it is a false alarm
     resp = call()
     sig = getattr(resp.signal2, "value", str(resp.signal2))
     lvl = getattr(resp.threat_level, "value", str(resp.threat_level))
@@ -155,9 +208,12 @@ def judged_inspect(ref, profile, fp, rep_threshold, anergic, call, just_trained=
     v = []
     ctx_txt = (f"got {lvl}/{act} signal2={sig}; reference: outside={out} boundary={bd} streak={ref.streak}"
                f"(threshold {rep_threshold}) flag={ref.flag} canary_failed={c_out or c_bd} remembered={remembered} "
-               f"anergic={anergic}")
+               f"anergic={anergic} dismissed_false_alarms={ref.fa}(threshold {ref.at})")
     if anergic and not silent(resp):
         v.append((f"anergic-watcher-not-silent:{sig}", f"desensitised watcher must answer none/ignore; {ctx_txt}"))
+    elif desens and not silent(resp):
+        v.append((f"desensitised-watcher-not-silent:{sig}",
+                  f"as many false alarms were dismissed as the watcher's anergy threshold: it must answer none/ignore; {ctx_txt}"))
     elif strict_in and not silent(resp):
         v.append((f"inside-baseline-reported-{lvl}:{sig}",
                   f"fingerprint strictly inside every bound must be none/ignore; {ctx_txt}"))
@@ -197,7 +253,11 @@ PROFILE_SPECS = [
     ("trained", ((40.0, 2.0, 3.0, 0.5, 0.5, 0.1, 0.0, "v1", "s1", 0.4), (40.0, 2.0, 3.0, 0.5, 0.5, 0.1, 0.0, "v1", "s2", 0.5))),
     # no canary in training: minimum 0.0
     ("direct", ((0.0, 4.0), (1.0, 1.5), (0.5, 1.0), 0.05, ("va", "vb"), ("sa",), 0.0)),
+    # degenerate but legal constructor values: point intervals, no error allowed, perfect canary required
+    ("direct", ((5.0, 5.0), (1.0, 1.0), (0.5, 0.5), 0.0, ("va",), ("sa",), 1.0)),
 ]
+D_PROFILES = {"quick": [0, 1], "thorough": [0, 1, 2, 3, 4]}     # D-tcell (full fingerprint product)
+T_PROFILES = {"quick": [0, 1, 4], "thorough": [0, 1, 2, 3, 4]}  # T (one fingerprint per reference class)
 
 
 def mk_profile(spec):
@@ -222,7 +282,7 @@ def _range_vals(lo, hi, tier):
     vals = [lo - d, lo, (lo + hi) / 2, hi, hi + d]
     if tier == "thorough":
         vals += [lo - 1e-6, hi + 1e-6]
-    return vals
+    return list(dict.fromkeys(vals))        # a point interval gives lo == middle == hi once
 
 
 def fp_space(profile, tier):
@@ -231,7 +291,7 @@ def fp_space(profile, tier):
     ts = _range_vals(*profile.response_time_bounds, tier)
     cs = _range_vals(*profile.confidence_bounds, tier)
     m = profile.error_rate_max
-    es = [m / 2, m + 0.1] + ([m] if tier == "thorough" else [])
+    es = list(dict.fromkeys([m / 2, m + 0.1] + ([m] if tier == "thorough" else [])))
     vs = [sorted(profile.valid_vocabulary_hashes)[0], "unknown-vocabulary"]
     ss = [sorted(profile.valid_structure_hashes)[-1], "unknown-structure"]
     cm = profile.canary_accuracy_min
@@ -247,11 +307,11 @@ def fp_space(profile, tier):
     return [(l, t, c, e, v, s, k) for l in ls for t in ts for c in cs for e in es for v in vs for s in ss for k in cans]
 
 
-def tcell_case(profile, thr, anergy, streak, flag, fpv):
+def tcell_case(profile, thr, anergy, streak, flag, fpv, ref_profile=None):
     """One D-tcell case; returns (viols, info of the final inspection, n inspections)."""
     rt, at = thr
     tc = TCell(profile=profile, repeated_anomaly_threshold=rt, anergy_threshold=at)
-    ref = Ref(has_memory=False)
+    ref = Ref(has_memory=False, profile=ref_profile if ref_profile is not None else copy.deepcopy(profile), rt=rt, at=at)
     lo, hi = profile.response_time_bounds
     mid = [(a + b) / 2 for a, b in (profile.output_length_bounds, profile.response_time_bounds, profile.confidence_bounds)]
     vhash = sorted(profile.valid_vocabulary_hashes)[0]
@@ -264,7 +324,7 @@ def tcell_case(profile, thr, anergy, streak, flag, fpv):
         nonlocal n
         n += 1
         anergic = tc.is_anergic
-        _, v, info = judged_inspect(ref, profile, fp, rt, anergic, lambda: tc.inspect(fp))
+        _, v, info = judged_inspect(ref, fp, anergic, lambda: tc.inspect(fp))
         viols.extend(v)
         return info
 
@@ -272,7 +332,7 @@ def tcell_case(profile, thr, anergy, streak, flag, fpv):
     for _ in range(false_alarms):                 # single-signal alarm, dismissed as false: towards anergy
         one(slow)
         tc.reset_without_confirmation()
-        ref.streak = 0
+        ref.dismiss()
     for _ in range(streak):
         one(slow)
     if flag:
@@ -283,11 +343,10 @@ def tcell_case(profile, thr, anergy, streak, flag, fpv):
 
 
 def _tcell_jobs(tier):
-    specs = PROFILE_SPECS[:2] if tier == "quick" else PROFILE_SPECS
     thrs = [(3, 2)] if tier == "quick" else [(3, 2), (2, 1)]
     jobs = []
-    for pi, spec in enumerate(specs):
-        nfp = len(fp_space(mk_profile(spec), tier))
+    for pi in D_PROFILES[tier]:
+        nfp = len(fp_space(mk_profile(PROFILE_SPECS[pi]), tier))
         step = 250
         for ti, thr in enumerate(thrs):
             for lo in range(0, nfp, step):
@@ -299,6 +358,7 @@ def _tcell_work(job):
     tier, pi, thr, lo, hi = job
     spec = PROFILE_SPECS[pi]
     profile = mk_profile(spec)
+    ref_profile = mk_profile(spec)          # the reference's own copy of the baseline as built / as trained
     fps = fp_space(profile, tier)[lo:hi]
     anergies = (0, 1) if tier == "quick" or thr[1] < 2 else (0, 1, 2)   # 2 = one false alarm short of anergy
     cases = inspections = nontrivial = boundary = boundary_inside = 0
@@ -309,7 +369,7 @@ def _tcell_work(job):
         for anergy in anergies:
             for streak in range(thr[0] + 1):
                 for flag in (0, 1):
-                    v, (info, out, bd, second), n = tcell_case(profile, thr, anergy, streak, flag, fpv)
+                    v, (info, out, bd, second), n = tcell_case(profile, thr, anergy, streak, flag, fpv, ref_profile)
                     cases += 1
                     inspections += n
                     outcomes.add(("tcell",) + info[:4] + (min(info[4], 3),))
@@ -351,7 +411,10 @@ def fp_classes(pi, tier):
     return _FP_CLASSES[key]
 
 
-T_THRS = {"quick": [(3, 2), (2, 1)], "thorough": [(3, 2), (2, 1), (1, 1), (3, 5), (4, 3)]}
+# repeated-anomaly / anergy thresholds, including the smallest legal values: 0 and 1 (a threshold of 0 is reached
+# before any anomaly / false alarm: such a watcher treats every anomaly as repeated / is desensitised from the start)
+T_THRS = {"quick": [(3, 2), (2, 1), (1, 1), (0, 2), (2, 0), (1, 3)],
+          "thorough": [(3, 2), (2, 1), (1, 1), (0, 2), (2, 0), (1, 3), (3, 5), (4, 3), (0, 0), (5, 1)]}
 
 
 class TState:
@@ -362,23 +425,37 @@ class TModel:
     """Histories over inspect(fingerprint class) / flag_manually / reset / reset_without_confirmation on one TCell:
     both resets (and the flag) are enabled in every state, so they are applied after a SUSPICIOUS answer, after a
     CONFIRMED one by each kind of second signal, after CRITICAL, while flagged, and on the way to anergy.  The
-    reference streak / flag are updated from the calls alone; the canonical state (counters capped at the configured
-    thresholds) only decides which histories are merged and is validated differentially by the explorer."""
+    reference streak / flag / dismissed false alarms are updated from the calls alone; the canonical state (counters
+    capped at the configured thresholds) only decides which histories are merged and is validated differentially by
+    the explorer.  Root = (profile, thresholds, sibling): with sibling=1 a second TCell built on the SAME profile
+    object has been flagged, driven past its anomaly threshold and desensitised before the history starts; nothing
+    of that may reach the watcher under test, which is judged as the fresh watcher it is."""
 
     def __init__(self, tier):
         self.tier = tier
-        self.npro = 2 if tier == "quick" else len(PROFILE_SPECS)
+        self.pis = T_PROFILES[tier]
 
     def roots(self):
-        return [[pi, rt, at] for pi in range(self.npro) for rt, at in T_THRS[self.tier]]
+        return [[pi, rt, at, sib] for pi in self.pis for rt, at in T_THRS[self.tier] for sib in (0, 1)]
 
     def build(self, root):
-        pi, rt, at = root
+        pi, rt, at = root[:3]
+        sib = root[3] if len(root) > 3 else 0
         st = TState()
         st.pi = pi
         st.profile = mk_profile(PROFILE_SPECS[pi])
+        if sib:
+            other = TCell(profile=st.profile, repeated_anomaly_threshold=rt, anergy_threshold=at)
+            worst = _pep(*fp_classes(pi, self.tier)[-1])     # the class with the most fields outside
+            for _ in range(at + 1):
+                other.inspect(worst)
+                other.reset_without_confirmation()
+            other.flag_manually("operator")
+            for _ in range(rt + 1):
+                other.inspect(worst)
+            st.sibling = other
         st.tc = TCell(profile=st.profile, repeated_anomaly_threshold=rt, anergy_threshold=at)
-        st.ref = Ref(has_memory=False)
+        st.ref = Ref(has_memory=False, profile=mk_profile(PROFILE_SPECS[pi]), rt=rt, at=at)
         st.last_obs = None
         return st
 
@@ -391,8 +468,11 @@ class TModel:
     def canon(self, st):
         tc = st.tc
         rt = tc.repeated_anomaly_threshold
+        p = tc.profile      # the live baseline (the reference judges against its own copy of the original)
+        live = (p.output_length_bounds, p.response_time_bounds, p.confidence_bounds, p.error_rate_max,
+                tuple(sorted(p.valid_vocabulary_hashes)), tuple(sorted(p.valid_structure_hashes)), p.canary_accuracy_min)
         return (min(tc.anomaly_count, rt), min(tc.anergy_count, tc.anergy_threshold), bool(tc.manual_flag),
-                tc.state.signal1.value, tc.state.signal2.value, min(st.ref.streak, rt), st.ref.flag)
+                tc.state.signal1.value, tc.state.signal2.value, rt, tc.anergy_threshold, live, st.ref.canon())
 
     def observe(self, st):
         return st.last_obs
@@ -406,19 +486,17 @@ class TModel:
         try:
             if kind == "inspect":
                 fp = _pep(*op[1])
-                _, viols, (info, out, bd, second) = judged_inspect(ref, st.profile, fp, tc.repeated_anomaly_threshold,
-                                                                   tc.is_anergic, lambda: tc.inspect(fp))
+                _, viols, (info, out, bd, second) = judged_inspect(ref, fp, tc.is_anergic, lambda: tc.inspect(fp))
                 st.last_obs = ("T", "inspect") + info[:4] + (min(info[4], 3), info[5])
             elif kind == "flag":
                 tc.flag_manually("operator")
                 ref.flag = True
             elif kind == "reset":
                 tc.reset()
-                ref.flag = False
-                ref.streak = 0
+                ref.reset()
             elif kind == "rwc":
                 tc.reset_without_confirmation()
-                ref.streak = 0
+                ref.dismiss()
             else:
                 raise common.HarnessError(f"unknown op {op}")
         except common.HarnessError:
@@ -432,29 +510,47 @@ class TModel:
 # D-treg
 # ------------------------------------------------------------------------------------------------
 
-def _c_always(resp, rec):
+def _b_always(resp, rec):
     return True
 
 
-def _c_never(resp, rec):
+def _b_never(resp, rec):
     return False
 
 
-def _c_recent(resp, rec):
+def _b_recent(resp, rec):
     return rec.recent_update
 
 
-def _c_tolerated(resp, rec):
+def _b_tolerated(resp, rec):
     return any(v.split()[0] in rec.tolerated_violations for v in resp.violations)
 
 
-CONDS = {"always": _c_always, "never": _c_never, "recent": _c_recent, "tolerated": _c_tolerated}
+CONDS = {"always": _b_always, "never": _b_never, "recent": _b_recent, "tolerated": _b_tolerated}
 COND_NAMES = ["always", "never", "recent", "tolerated"]
 STAB = 3
+# how a rule's condition callback spells its yes / no: (no, yes) factories — bool, and falsy / truthy values of other types
+ENCODINGS = {
+    "bool": (lambda: False, lambda: True),
+    "none-str": (lambda: None, lambda: "yes"),
+    "int": (lambda: 0, lambda: 1),
+    "container": (lambda: [], lambda: [0]),
+    "str": (lambda: "", lambda: "False"),
+}
+ENC_NAMES = {"quick": ["bool", "none-str"], "thorough": ["bool", "none-str", "int", "container", "str"]}
+# SuppressionRule.duration (None = permanent rule)
+DURATIONS = {"none": None, "zero": _dt.timedelta(0), "hour": _dt.timedelta(hours=1)}
+DUR_NAMES = {"quick": ["none", "zero"], "thorough": ["none", "zero", "hour"]}
 
 
-def mk_rule(cond, sev):
-    return SuppressionRule(name=f"{cond}/{sev}", condition=CONDS[cond], max_severity=ThreatLevel(sev))
+def mk_rule(cond, sev, enc="bool", dur="none"):
+    base = CONDS[cond]
+    no, yes = ENCODINGS[enc]
+
+    def condition(resp, rec):
+        return yes() if base(resp, rec) else no()
+
+    return SuppressionRule(name=f"{cond}/{sev}", condition=condition, max_severity=ThreatLevel(sev), duration=DURATIONS[dur])
 
 
 def rule_sets(tier):
@@ -469,16 +565,21 @@ def rule_sets(tier):
     return sets
 
 
-RECORDS = [(st, rec, tol) for st in (0, 1) for rec in (0, 1, 2) for tol in (0, 1)]
+# record = (stability_threshold of the Treg, clean inspections so far, recently updated 0 / 1 / 2 = expired, tolerated violation)
+# stability thresholds 0 and 1 are the smallest legal values (0: every agent is stable from the start)
+RECORDS = [(stab, clean, rec, tol) for stab, clean in ((STAB, STAB - 1), (STAB, STAB), (0, 0), (1, 1))
+           for rec in (0, 1, 2) for tol in (0, 1)]
+PAIRS = [(lvl.value, act.value) for lvl in LEVELS for act in ACTIONS]
 
 
-def treg_case(level, action, rules, recspec):
-    stable, recent, tol = recspec
+def treg_setup(rules, recspec, opt):
+    stab, clean, recent, tol = recspec
+    enc, dur = opt
     clock = vclock.VClock()
     vclock.use(clock)
-    treg = RegulatoryTCell(rules=[mk_rule(c, s) for c, s in rules], stability_threshold=STAB)
+    treg = RegulatoryTCell(rules=[mk_rule(c, s, enc, dur) for c, s in rules], stability_threshold=stab)
     rec = treg.register_agent(AID)
-    for _ in range(STAB if stable else STAB - 1):
+    for _ in range(clean):
         rec.record_inspection(clean=True)
     if recent:
         rec.mark_updated()
@@ -486,12 +587,15 @@ def treg_case(level, action, rules, recspec):
             clock.advance(7200)      # the one-hour update tolerance has expired
     if tol:
         rec.add_tolerated_violation("response_time")
+    return treg, rec
+
+
+def treg_eval(treg, rec, level, action, is_stable):
     lvl, act = ThreatLevel(level), ResponseAction(action)
     resp = ImmuneResponse(agent_id=AID, threat_level=lvl, action=act,
                           signal1=Signal1.SELF if lvl == NONE else Signal1.NON_SELF,
                           signal2=Signal2.NONE if lvl in (NONE, SUSP) else Signal2.MANUAL_FLAG,
                           violations=[] if lvl == NONE else ["response_time out of bounds: 50.000 not in [0.980, 1.020]"])
-    is_stable = rec.is_stable(STAB)
     res = treg.evaluate(resp, rec)
     mod = res.modified_action
     v = []
@@ -515,6 +619,18 @@ def treg_case(level, action, rules, recspec):
     return v, ("treg", level, action, getattr(mod, "value", str(mod)), bool(res.suppressed)), multi
 
 
+def treg_case(level, action, rules, recspec, opt=("bool", "none"), prefix=()):
+    """One evaluate() judged under clause (d).  `prefix` = the (level, action) responses the same Treg and record
+    have evaluated before (empty: fresh objects)."""
+    if len(recspec) == 3:       # cases recorded before the stability threshold became a dimension
+        recspec = (STAB, STAB if recspec[0] else STAB - 1) + tuple(recspec[1:])
+    treg, rec = treg_setup(rules, recspec, opt)
+    stable = recspec[1] >= recspec[0]      # from the record's history as driven here, not from the record's own answer
+    for l, a in prefix:
+        treg_eval(treg, rec, l, a, stable)
+    return treg_eval(treg, rec, level, action, stable)
+
+
 def _treg_jobs(tier):
     n = len(rule_sets(tier))
     return [(tier, lo, min(n, lo + 40)) for lo in range(0, n, 40)]
@@ -523,24 +639,41 @@ def _treg_jobs(tier):
 def _treg_work(job):
     tier, lo, hi = job
     sets = rule_sets(tier)[lo:hi]
-    cases = changed = multi_n = 0
+    cases = changed = multi_n = replayed = differs = 0
     outcomes = set()
     viols = {}
+
+    def note(v, case):
+        for key, what in v:
+            e = viols.setdefault(key, [0, what, case])
+            e[0] += 1
+
     for rules in sets:
         for recspec in RECORDS:
-            for lvl in LEVELS:
-                for act in ACTIONS:
-                    v, outc, multi = treg_case(lvl.value, act.value, rules, recspec)
-                    cases += 1
-                    outcomes.add(outc)
-                    if outc[2] != outc[3]:
-                        changed += 1
-                    multi_n += multi
-                    for key, what in v:
-                        e = viols.setdefault(key, [0, what, {"engine": "D-treg", "level": lvl.value, "action": act.value,
-                                                             "rules": rules, "record": recspec}])
-                        e[0] += 1
-    return dict(cases=cases, changed=changed, multi=multi_n, outcomes=outcomes, viols=viols)
+            for enc in ENC_NAMES[tier]:
+                for dur in DUR_NAMES[tier]:
+                    opt = (enc, dur)
+                    fresh = {}
+                    for level, action in PAIRS:          # every response on fresh objects
+                        v, outc, multi = treg_case(level, action, rules, recspec, opt)
+                        cases += 1
+                        outcomes.add(outc)
+                        fresh[(level, action)] = outc
+                        if outc[2] != outc[3]:
+                            changed += 1
+                        multi_n += multi
+                        note(v, {"engine": "D-treg", "level": level, "action": action, "rules": rules,
+                                 "record": recspec, "opt": opt, "prefix": ()})
+                    # the same responses through ONE Treg and record, each after a different prefix of the others
+                    for order in (PAIRS, PAIRS[::-1]):
+                        treg, rec = treg_setup(rules, recspec, opt)
+                        for i, (level, action) in enumerate(order):
+                            v, outc, _ = treg_eval(treg, rec, level, action, recspec[1] >= recspec[0])
+                            replayed += 1
+                            differs += outc != fresh[(level, action)]
+                            note(v, {"engine": "D-treg", "level": level, "action": action, "rules": rules,
+                                     "record": recspec, "opt": opt, "prefix": tuple(order[:i])})
+    return dict(cases=cases, changed=changed, multi=multi_n, replayed=replayed, differs=differs, outcomes=outcomes, viols=viols)
 
 
 # ------------------------------------------------------------------------------------------------
@@ -548,7 +681,8 @@ def _treg_work(job):
 # ------------------------------------------------------------------------------------------------
 
 def obs_alphabet(tier):
-    outs = ["alpha betas", '{"k": 1}', "- item one"]
+    # three output shapes and no output at all (None: zero length, empty vocabulary, no structure)
+    outs = ["alpha betas", '{"k": 1}', "- item one", None]
     times = [1.0, 50.0] if tier == "quick" else [0.5, 1.0, 50.0]
     return [(o, t, c, e) for o in outs for t in times for c in (0.1, 0.9) for e in (None, "E")]
 
@@ -567,13 +701,26 @@ def train_windows(tier):
     return wins
 
 
-TRAIN_CFGS = [(2, 2, 4), (1, 1, 4), (2, 2, 2)]   # (min_training_samples, min_observations, window_size)
+# (min_training_samples, min_observations, window_size, Thymus tolerance; None = the ImmuneSystem's own default Thymus)
+# the first is the core configuration (all windows); single-sample training, eviction, a window of one observation and
+# a window the observations never fill, crossed with tolerance 0 (bounds collapse onto the trained mean), a
+# fraction and a huge one
+TRAIN_SHAPES = [(2, 2, 4), (1, 1, 4), (2, 2, 2), (1, 1, 1), (3, 2, 100)]
+TRAIN_TOLS = {"quick": [None, 0.0, 1e6], "thorough": [None, 0.0, 0.25, 1e6]}
+
+
+def train_cfgs(tier):
+    return [sh + (tol,) for sh in TRAIN_SHAPES for tol in TRAIN_TOLS[tier]]
 
 
 def train_case(cfg, window, canaries):
-    mts, mo, ws = cfg
+    mts, mo, ws = cfg[:3]
+    tol = cfg[3] if len(cfg) > 3 else None
     vclock.use(vclock.VClock())
-    imm = ImmuneSystem(min_training_samples=mts, min_observations=mo, window_size=ws)
+    if tol is None:
+        imm = ImmuneSystem(min_training_samples=mts, min_observations=mo, window_size=ws)
+    else:
+        imm = ImmuneSystem(min_training_samples=mts, min_observations=mo, window_size=ws, thymus=Thymus(tolerance=tol))
     imm.register_agent(AID)
     for o in window:
         imm.record_observation(AID, o[0], o[1], o[2], o[3])
@@ -584,19 +731,25 @@ def train_case(cfg, window, canaries):
         return [], ("train", res.value), None
     fp = imm.displays[AID].generate_peptide()
     tc = imm.tcells[AID]
-    ref = Ref()
-    _, v, (info, out, bd, second) = judged_inspect(ref, imm.profiles[AID], fp, tc.repeated_anomaly_threshold,
-                                                   tc.is_anergic, lambda: imm.inspect(AID), just_trained=True)
+    ref = Ref(profile=copy.deepcopy(imm.profiles[AID]), rt=max(2, tc.repeated_anomaly_threshold), at=tc.anergy_threshold)
+    _, v, (info, out, bd, second) = judged_inspect(ref, fp, tc.is_anergic, lambda: imm.inspect(AID), just_trained=True)
     return v, ("train", res.value) + info[:4], (out, bd)
 
 
 def _train_jobs(tier):
+    al = len(obs_alphabet(tier))
     n = len(train_windows(tier))
-    n3 = len(obs_alphabet(tier)) ** 2 + len(obs_alphabet(tier)) ** 3      # windows of length 2 and 3 come first
-    cfgs = TRAIN_CFGS[:1] if tier == "quick" else TRAIN_CFGS
-    # the two extra configurations (single-sample training; eviction at window_size 3) run on lengths 2-3 only
-    return [(tier, cfg, lo, min(n if cfg == TRAIN_CFGS[0] else n3, lo + 1500))
-            for cfg in cfgs for lo in range(0, n if cfg == TRAIN_CFGS[0] else n3, 1500)]
+    n2, n3 = al ** 2, al ** 2 + al ** 3         # windows of length 2, then 3, come first
+    jobs = []
+    for i, cfg in enumerate(train_cfgs(tier)):
+        if i == 0:
+            upto = n
+        elif tier == "thorough" and cfg in ((1, 1, 4, None), (2, 2, 2, None)):
+            upto = n3
+        else:
+            upto = n2       # every other shape x tolerance runs on every window of length 2
+        jobs += [(tier, cfg, lo, min(upto, lo + 1500)) for lo in range(0, upto, 1500)]
+    return jobs
 
 
 def _train_work(job):
@@ -636,8 +789,20 @@ OBS = {
 }
 A_RULES = {"always-critical": ("always", "critical"), "recent-confirmed": ("recent", "confirmed")}
 
+# Watched agents ("slots"): 0 = the agent under exploration; 1 = a second agent registered in the SAME ImmuneSystem;
+# 2 = an agent with the same id in a SECOND ImmuneSystem built the same way in the same process.  An operation
+# ("@", slot, ...) addresses slot 1 / 2; a bare operation addresses slot 0.  Every slot has its own reference: what
+# another agent / another system was flagged for, remembered, dismissed or trained on is no signal for this one.
+SLOTS = {0: (0, AID), 1: (0, "other"), 2: (1, AID)}
+
+
+def on(slot, *ops):
+    return [("@", slot) + tuple(op) for op in ops]
+
+
 TRAINED = [("obs", "normal"), ("obs", "normal"), ("train",)]
 ALARM = [("inspect",), ("rwc",)]
+THREAT = [("obs", "slow"), ("flag",), ("inspect",)]      # CONFIRMED by flag; remembered under the trained hashes
 ROOTS = {
     "fresh": [],
     "trained": TRAINED,
@@ -648,11 +813,34 @@ ROOTS = {
     # resets of either kind, new observations and retraining are explored from there
     "confirmed-by-streak": TRAINED + [("obs", "slow")] + [("inspect",)] * 3,
     "confirmed-by-canary": TRAINED + [("obs", "slow"), ("canary", 0), ("inspect",)],
-    "confirmed-by-flag": TRAINED + [("obs", "slow"), ("flag",), ("inspect",)],
+    "confirmed-by-flag": TRAINED + THREAT,
     "critical-by-flag": TRAINED + [("obs", "bad"), ("obs", "bad"), ("flag",), ("inspect",)],
-    "remembered": TRAINED + [("obs", "slow"), ("flag",), ("inspect",), ("reset",)],
+    "remembered": TRAINED + THREAT + [("reset",)],
     # a threat is remembered under the trained hashes, then the watcher is desensitised by alarms under other hashes
     "remembered-anergic": TRAINED + [("obs", "slow"), ("flag",), ("inspect",), ("reset",), ("obs", "vocab"), ("obs", "vocab")] + ALARM * 5,
+    # the agent is registered again under its name after a confirmed threat (new display and tolerance record)
+    "reregistered": TRAINED + THREAT + [("reregister",)],
+    # constructor values away from the ones above: a window of ONE observation trained from one sample; an agent that
+    # is stable from the start (stability threshold 0); an immune memory that holds one signature; bounds collapsed
+    # onto the trained mean (Thymus tolerance 0)
+    "cfg-window-of-one": [("cfg", "mts", 1, "mo", 1, "ws", 1), ("obs", "normal"), ("train",)],
+    "cfg-stable-from-start": [("cfg", "stab", 0)] + TRAINED,
+    "cfg-memory-of-one": [("cfg", "cap", 1)] + TRAINED + THREAT + [("reset",)],
+    "cfg-tolerance-zero": [("cfg", "tol", 0.0)] + TRAINED,
+}
+# two agents / two systems: slot 0 is explored as above while slot 1 / 2 carries state that must not leak
+X_ROOTS = {
+    "x-both-trained": TRAINED + on(1, *TRAINED),
+    # the other agent: confirmed threat remembered under the hashes both agents share, still flagged
+    "x-other-threat": TRAINED + on(1, *TRAINED) + on(1, *THREAT),
+    # the other agent: confirmed by an anomaly streak that is still running
+    "x-other-streak": TRAINED + on(1, *TRAINED) + on(1, ("obs", "slow")) + on(1, ("inspect",)) * 3,
+    # the other agent's baseline is what is an anomaly for this one (and the other way round)
+    "x-other-baseline": TRAINED + on(1, ("obs", "slow"), ("obs", "slow"), ("train",)),
+    # the other agent has been desensitised and marked as updated
+    "x-other-anergic": TRAINED + on(1, *TRAINED) + on(1, ("obs", "slow")) + on(1, *ALARM) * 5 + on(1, ("updated",)),
+    # a second ImmuneSystem in the same process knows an agent of the same name as a flagged, remembered threat
+    "x-second-system-threat": TRAINED + on(2, *TRAINED) + on(2, *THREAT),
 }
 
 
@@ -661,6 +849,8 @@ class AState:
 
 
 class AModel:
+    roots_table = ROOTS
+
     def __init__(self, tier):
         self.tier = tier
         self.kinds = ["normal", "slow", "vocab", "bad"] if tier == "quick" else ["normal", "slow", "vocab", "error", "bad"]
@@ -668,26 +858,54 @@ class AModel:
         self.rules = ["always-critical"] if tier == "quick" else ["always-critical", "recent-confirmed"]
 
     def roots(self):
-        return [list(map(list, ROOTS[k])) for k in ROOTS]
+        return [list(map(list, self.roots_table[k])) for k in self.roots_table]
+
+    @staticmethod
+    def _mk_system(cfg):
+        kw = dict(min_training_samples=cfg["mts"], min_observations=cfg["mo"], window_size=cfg["ws"],
+                  treg=RegulatoryTCell(stability_threshold=cfg["stab"]))
+        if cfg["cap"] is not None:
+            kw["memory"] = m_memory.ImmuneMemory(capacity=cfg["cap"])
+        if cfg["tol"] is not None:
+            kw["thymus"] = Thymus(tolerance=cfg["tol"])
+        return ImmuneSystem(**kw)
 
     def build(self, root):
         st = AState()
         st.clock = vclock.VClock()
         vclock.use(st.clock)
-        st.imm = ImmuneSystem(min_training_samples=2, min_observations=2, window_size=2,
-                              treg=RegulatoryTCell(stability_threshold=STAB))
-        st.imm.register_agent(AID)
-        st.ref = Ref()
-        st.just_trained = False
+        cfg = dict(mts=2, mo=2, ws=2, stab=STAB, cap=None, tol=None)
+        root = [tuple(op) for op in root]
+        if root and root[0][0] == "cfg":
+            kv = root[0][1:]
+            cfg.update(dict(zip(kv[::2], kv[1::2])))
+            root = root[1:]
+        st.cfg = cfg
+        st.systems = [self._mk_system(cfg)]
+        st.systems[0].register_agent(AID)
+        st.refs = {0: Ref()}
         for op in root:
-            self.step(st, tuple(op))
+            self.step(st, op)
         return st
 
     def clone(self, st):
         return copy.deepcopy(st)
 
+    def _slot(self, st, slot, create=False):
+        """(ImmuneSystem, agent id, Ref) of a slot; a slot is created (system built, agent registered) by the first
+        operation addressed to it."""
+        si, aid = SLOTS[slot]
+        if slot not in st.refs:
+            if not create:
+                raise common.HarnessError(f"slot {slot} does not exist yet")
+            while len(st.systems) <= si:
+                st.systems.append(self._mk_system(st.cfg))
+            st.systems[si].register_agent(aid)
+            st.refs[slot] = Ref()
+        return st.systems[si], aid, st.refs[slot]
+
     def ops(self, st):
-        imm = st.imm
+        imm = st.systems[0]
         vclock.use(st.clock)
         o = [("obs", k) for k in self.kinds]
         if len(imm.displays[AID].canary_results) < self.cmax:
@@ -699,85 +917,103 @@ class AModel:
         if imm.treg.get_record(AID).recent_update:
             o.append(("advance",))
         o += [("rule", r) for r in self.rules]
+        if self.tier == "thorough":
+            o.append(("reregister",))
         return o
 
-    def canon(self, st):
-        imm = st.imm
-        vclock.use(st.clock)
-        d = imm.displays[AID]
+    def _slot_canon(self, st, slot):
+        imm, aid, ref = self._slot(st, slot)
+        d = imm.displays[aid]
         win = tuple((o.output, o.response_time, o.confidence, o.error) for o in d.observations)
         can = (sum(d.canary_results), len(d.canary_results))
-        p = imm.profiles.get(AID)
+        p = imm.profiles.get(aid)
         prof = None if p is None else (p.output_length_bounds, p.response_time_bounds, p.confidence_bounds, p.error_rate_max,
                                        tuple(sorted(p.valid_vocabulary_hashes)), tuple(sorted(p.valid_structure_hashes)),
                                        p.canary_accuracy_min)
-        tc = imm.tcells.get(AID)
-        rep = tc.repeated_anomaly_threshold if tc is not None else 0
-        t = None if tc is None else (min(tc.anomaly_count, rep), min(tc.anergy_count, tc.anergy_threshold),
-                                     bool(tc.manual_flag), tc.state.signal1.value, tc.state.signal2.value)
-        first = {}
-        for s in imm.memory.signatures:     # recall answers with the first signature stored for a hash pair
-            first.setdefault((s.agent_id, s.vocabulary_hash, s.structure_hash), (s.threat_level.value, s.effective_response.value))
-        mem = tuple(sorted(first.items()))
-        r = imm.treg.get_record(AID)
+        tc = imm.tcells.get(aid)
+        t = None if tc is None else (min(tc.anomaly_count, tc.repeated_anomaly_threshold), min(tc.anergy_count, tc.anergy_threshold),
+                                     bool(tc.manual_flag), tc.state.signal1.value, tc.state.signal2.value,
+                                     tc.repeated_anomaly_threshold, tc.anergy_threshold)
+        r = imm.treg.get_record(aid)
         rec = (min(r.clean_inspections, imm.treg.stability_threshold), r.recent_update, tuple(sorted(r.tolerated_violations)))
-        rules = tuple(sorted(x.name for x in imm.treg.rules))
-        ref = (min(st.ref.streak, rep), st.ref.flag, tuple(sorted(st.ref.mem)))
-        return (win, can, prof, t, mem, rec, rules, ref, st.just_trained)
+        return (slot, win, can, prof, t, rec, ref.canon())
+
+    def canon(self, st):
+        vclock.use(st.clock)
+        systems = []
+        for imm in st.systems:
+            if imm.memory.capacity >= 1000:
+                first = {}
+                for s in imm.memory.signatures:     # recall answers with the first signature stored for a hash pair
+                    first.setdefault((s.agent_id, s.vocabulary_hash, s.structure_hash), (s.threat_level.value, s.effective_response.value))
+                mem = tuple(sorted(first.items()))
+            else:                                   # a small memory evicts by access time: order and recency matter
+                mem = tuple((s.agent_id, s.vocabulary_hash, s.structure_hash, s.threat_level.value, s.effective_response.value)
+                            for s in imm.memory.signatures)
+                acc = sorted(range(len(imm.memory.signatures)), key=lambda i: imm.memory.signatures[i].last_accessed)
+                mem = (mem, tuple(acc))
+            systems.append((mem, tuple(sorted(x.name for x in imm.treg.rules))))
+        return (tuple(systems), tuple(self._slot_canon(st, slot) for slot in sorted(st.refs)))
 
     def observe(self, st):
         return getattr(st, "last_obs", None)
 
     def step(self, st, op):
         op = tuple(op)
-        imm, ref = st.imm, st.ref
+        slot = 0
+        if op[0] == "@":
+            slot, op = op[1], op[2:]
         vclock.use(st.clock)
         kind = op[0]
-        st.last_obs = ("A", kind)
+        st.last_obs = ("A", kind) if slot == 0 else ("A", slot, kind)
+        if kind in ("advance", "rule") and slot != 0:
+            raise common.HarnessError(f"{kind} is a system-wide operation")
+        imm, aid, ref = self._slot(st, slot, create=True)
         viols = []
+        was_trained, ref.just_trained = ref.just_trained, False
         try:
             if kind == "obs":
                 o = OBS[op[1]]
-                imm.record_observation(AID, o[0], o[1], o[2], o[3])
-                st.just_trained = False
+                imm.record_observation(aid, o[0], o[1], o[2], o[3])
             elif kind == "canary":
-                imm.record_canary_result(AID, bool(op[1]))
-                st.just_trained = False
+                imm.record_canary_result(aid, bool(op[1]))
             elif kind == "train":
-                res = imm.train_agent(AID)
-                st.just_trained = res == SelectionResult.POSITIVE
-                if st.just_trained:
-                    ref.streak = 0      # anomalies were relative to the previous baseline; the flag stays (permissive)
-                st.last_obs = ("A", "train", res.value)
+                res = imm.train_agent(aid)
+                if res == SelectionResult.POSITIVE:
+                    tc = imm.tcells[aid]
+                    # the new watcher as configured at its creation; an ImmuneSystem's own watcher cannot call one
+                    # anomaly "repeated" (whoever builds a bare TCell with threshold 1 asked for it: engine T)
+                    ref.new_watcher(copy.deepcopy(imm.profiles[aid]), max(2, tc.repeated_anomaly_threshold), tc.anergy_threshold)
+                    ref.just_trained = True
+                st.last_obs = st.last_obs + (res.value,)
             elif kind == "inspect":
-                tc = imm.tcells[AID]
-                fp = imm.displays[AID].generate_peptide()
+                tc = imm.tcells[aid]
+                fp = imm.displays[aid].generate_peptide()
                 if fp is None:
-                    raise common.HarnessError("trained agent without a fingerprint")
-                _, viols, (info, out, bd, second) = judged_inspect(
-                    ref, imm.profiles[AID], fp, tc.repeated_anomaly_threshold, tc.is_anergic,
-                    lambda: imm.inspect(AID), just_trained=st.just_trained)
-                st.just_trained = False
-                st.last_obs = ("A", "inspect") + info[:4] + (min(info[4], 3),)
+                    # nothing is displayed (agent registered again): no behaviour, so no baseline violation either
+                    resp = imm.inspect(aid)
+                    if escalated(resp):
+                        viols.append(("escalated-without-fingerprint", f"no observation window, yet {resp.threat_level.value}/{resp.action.value}"))
+                    st.last_obs = st.last_obs + ("no-fingerprint", resp.threat_level.value, resp.action.value)
+                else:
+                    _, viols, (info, out, bd, second) = judged_inspect(ref, fp, tc.is_anergic, lambda: imm.inspect(aid),
+                                                                       just_trained=was_trained)
+                    st.last_obs = st.last_obs + info[:4] + (min(info[4], 3),)
             elif kind == "flag":
-                imm.flag_agent(AID, "operator")
+                imm.flag_agent(aid, "operator")
                 ref.flag = True
-                st.just_trained = False
             elif kind == "reset":
-                imm.tcells[AID].reset()
-                ref.flag = False
-                ref.streak = 0
-                st.just_trained = False
+                imm.tcells[aid].reset()
+                ref.reset()
             elif kind == "rwc":
-                imm.tcells[AID].reset_without_confirmation()
-                ref.streak = 0
-                st.just_trained = False
+                imm.tcells[aid].reset_without_confirmation()
+                ref.dismiss()
             elif kind == "updated":
-                imm.mark_agent_updated(AID)
-                st.just_trained = False
+                imm.mark_agent_updated(aid)
+            elif kind == "reregister":
+                imm.register_agent(aid)
             elif kind == "advance":
                 st.clock.advance(7200)
-                st.just_trained = False
             elif kind == "rule":
                 names = [r.name for r in imm.treg.rules]
                 cond, sev = A_RULES[op[1]]
@@ -786,14 +1022,37 @@ class AModel:
                     imm.treg.rules = [r for r in imm.treg.rules if r.name != nm]
                 else:
                     imm.treg.rules.append(mk_rule(cond, sev))
-                st.just_trained = False
             else:
                 raise common.HarnessError(f"unknown op {op}")
         except common.HarnessError:
             raise
         except Exception as e:  # noqa: BLE001
             return [(f"raises:{kind}:{type(e).__name__}", f"{kind} raised {type(e).__name__}: {e}")]
+        if slot != 0:
+            viols = [(f"{k}@{'other-agent' if slot == 1 else 'second-system'}", w) for k, w in viols]
         return viols
+
+
+class XModel(AModel):
+    """Two agents in one ImmuneSystem and a second ImmuneSystem in the same process.  Slot 0 gets the operations of
+    engine A that bear on its own two signals; the other slot keeps moving (new anomalies, inspections, a flag) in
+    between.  The oracle is the same per-agent reference: the other slot's flag, streak, memory, false alarms and
+    baseline are not signals for this one, and the other way round."""
+    roots_table = X_ROOTS
+
+    def ops(self, st):
+        imm = st.systems[0]
+        vclock.use(st.clock)
+        o = [("obs", "normal"), ("obs", "slow")]
+        if len(imm.displays[AID].canary_results) < 1:
+            o.append(("canary", 0))
+        o.append(("train",))
+        if AID in imm.tcells:
+            o += [("inspect",), ("flag",), ("reset",), ("rwc",)]
+        for slot in sorted(st.refs):
+            if slot:
+                o += on(slot, ("obs", "slow"), ("inspect",), ("flag",))
+        return o
 
 
 # ------------------------------------------------------------------------------------------------
@@ -839,20 +1098,22 @@ def run(ctx):
 
     # ---- T (bare TCell histories, to the fixpoint)
     tmodel = TModel(tier)
-    for pi in range(tmodel.npro):
+    for pi in tmodel.pis:
         fp_classes(pi, tier)            # computed once here, inherited by the forked workers
-    t = explore.explore(tmodel, ctx, 64, label="T", validate_canon=100 if tier == "quick" else 400)
-    if not t["fixpoint"]:
-        raise common.HarnessError(f"TCell history search did not close within depth 64: {t}")
+    t = explore.explore(tmodel, ctx, 64, label="T", validate_canon=100 if tier == "quick" else 400, max_states=200000)
+    if not t["fixpoint"] and not ctx.violation_count and not ctx.known_hits:
+        # (a tree on which the watcher's configuration drifts has already been reported above; the search cannot close there)
+        raise common.HarnessError(f"TCell history search did not close within depth 64 / 200000 states: {t}")
 
     # ---- D-treg
     jobs = _treg_jobs(tier)
     res, order = _pmap(ctx, _treg_work, jobs)
     _merge(ctx, res, order)
     for r in res:
-        for k in ("cases", "changed", "multi"):
+        for k in ("cases", "changed", "multi", "replayed", "differs"):
             ctx.stats[f"D-treg.{k}"] += r[k]
-    ctx.sample({"engine": "D-treg", "level": "confirmed", "action": "isolate", "rules": rule_sets(tier)[7], "record": (0, 1, 0)})
+    ctx.sample({"engine": "D-treg", "level": "confirmed", "action": "isolate", "rules": rule_sets(tier)[7],
+                "record": (STAB, STAB - 1, 1, 0), "opt": ("none-str", "zero"), "prefix": (("critical", "shutdown"),)})
 
     # ---- D-train
     jobs = _train_jobs(tier)
@@ -864,34 +1125,43 @@ def run(ctx):
         for k in ("cases", "positive", "boundary"):
             ctx.stats[f"D-train.{k}"] += r[k]
     ctx.stats["D-train.profiles"] = len(trained)
-    ctx.sample({"engine": "D-train", "cfg": TRAIN_CFGS[0], "window": [obs_alphabet(tier)[0], obs_alphabet(tier)[5]], "canaries": (True,)})
+    ctx.sample({"engine": "D-train", "cfg": train_cfgs(tier)[0], "window": [obs_alphabet(tier)[0], obs_alphabet(tier)[5]], "canaries": (True,)})
 
     # ---- A
     model = AModel(tier)
-    for name, prefix in ROOTS.items():      # root prefixes are judged once, like any other history
-        st = model.build([])
-        for i, op in enumerate(prefix):
+    xmodel = XModel(tier)
+    for name, prefix in list(ROOTS.items()) + list(X_ROOTS.items()):      # root prefixes are judged once, like any other history
+        head = [list(prefix[0])] if prefix and prefix[0][0] == "cfg" else []
+        body = prefix[len(head):]
+        st = model.build(head)
+        for i, op in enumerate(body):
             for key, what in model.step(st, op):
-                ctx.report(key, f"root prefix {name}: after {prefix[:i]} op {op}: {what}", {"root": [], "hist": prefix[:i], "op": op})
+                ctx.report(key, f"root prefix {name}: after {body[:i]} op {op}: {what}", {"root": head, "hist": body[:i], "op": op})
     depth = 5 if tier == "quick" else 6
     a = explore.explore(model, ctx, depth, validate_canon=100 if tier == "quick" else 400)
+    x = explore.explore(xmodel, ctx, 4 if tier == "quick" else 5, label="X", validate_canon=100 if tier == "quick" else 400)
 
-    d_exec = ctx.stats["D-tcell.cases"] + ctx.stats["D-treg.cases"] + ctx.stats["D-train.cases"]
-    d_eval = ctx.stats["D-tcell.inspections"] + ctx.stats["D-treg.cases"] + ctx.stats["D-train.positive"]
+    d_exec = ctx.stats["D-tcell.cases"] + ctx.stats["D-treg.cases"] + ctx.stats["D-treg.replayed"] // len(PAIRS) + ctx.stats["D-train.cases"]
+    d_eval = ctx.stats["D-tcell.inspections"] + ctx.stats["D-treg.cases"] + ctx.stats["D-treg.replayed"] + ctx.stats["D-train.positive"]
     ctx.coverage.update(
-        states=a["states"] + t["states"],
-        transitions=a["transitions"] + t["transitions"],
-        traces_validated_against_impl=a["transitions"] + t["transitions"] + d_exec,
-        evaluations=a["transitions"] + t["transitions"] + d_eval,
-        distinct_nontrivial=a["states"] + t["states"] + ctx.stats["D-tcell.nontrivial"] + ctx.stats["D-treg.changed"] + ctx.stats["D-train.profiles"],
+        states=a["states"] + t["states"] + x["states"],
+        transitions=a["transitions"] + t["transitions"] + x["transitions"],
+        traces_validated_against_impl=a["transitions"] + t["transitions"] + x["transitions"] + d_exec,
+        evaluations=a["transitions"] + t["transitions"] + x["transitions"] + d_eval,
+        distinct_nontrivial=a["states"] + t["states"] + x["states"] + ctx.stats["D-tcell.nontrivial"] + ctx.stats["D-treg.changed"] + ctx.stats["D-train.profiles"],
         rule="D-tcell: every fingerprint on the product of per-bound positions of each profile x anergy x streak x flag "
         "(all distinct by construction; non-trivial = a baseline violation or a second signal is present in the reference); "
-        "D-treg: every level x action x rule set x record (non-trivial = the action was modified); D-train: every "
-        "observation window (ordered for length 2-3; thorough adds multisets of length 4) x canary history (non-trivial = distinct "
-        "(window multiset, canaries) that trained POSITIVE); T: BFS to the fixpoint over all histories of inspect(one "
+        "D-treg: every level x action x rule set x record (stability threshold 0 / 1 / 3, stable or not, update, tolerated "
+        "violation) x spelling of the condition's answer x rule duration, each on fresh objects and again through one shared "
+        "Treg and record in two orders (non-trivial = the action was modified on fresh objects); D-train: the core "
+        "configuration on every observation window (ordered for length 2-3; thorough adds multisets of length 4) x canary "
+        "history, every other system shape x Thymus tolerance on every window of length 2 (non-trivial = distinct "
+        "(configuration, window multiset, canaries) that trained POSITIVE); T: BFS to the fixpoint over all histories of inspect(one "
         "fingerprint per reference class) / flag_manually / reset / reset_without_confirmation on a bare TCell per profile x "
-        "thresholds, distinct = canonical state; A: BFS over ImmuneSystem histories, distinct = canonical state",
-        exhaustive=not a["capped"],
+        "thresholds (0 and 1 included) x with / without a used sibling watcher on the same profile object, distinct = canonical "
+        "state; A: BFS over ImmuneSystem histories, distinct = canonical state; X: BFS over histories of two agents in one "
+        "ImmuneSystem and of a second ImmuneSystem, distinct = canonical state",
+        exhaustive=not (a["capped"] or x["capped"]),
         depth_completed=a["depth_completed"],
         fixpoint=a["fixpoint"],
         a_roots=a["roots"],
@@ -902,16 +1172,28 @@ def run(ctx):
         t_fixpoint=t["fixpoint"],
         t_depth=t["depth_completed"],
         t_roots=t["roots"],
-        t_fingerprint_classes=[len(fp_classes(pi, tier)) for pi in range(tmodel.npro)],
+        t_fingerprint_classes=[len(fp_classes(pi, tier)) for pi in tmodel.pis],
+        x_states=x["states"],
+        x_transitions=x["transitions"],
+        x_depth=x["depth_completed"],
+        x_roots=x["roots"],
+        x_frontier_left=x["frontier_left"],
+        x_canon_pairs_validated=ctx.stats["X.canon_pairs_validated"],
+        treg_option_sets=len(RECORDS) * len(ENC_NAMES[tier]) * len(DUR_NAMES[tier]),
+        treg_shared_object_evaluations=ctx.stats["D-treg.replayed"],
+        treg_shared_object_answers_differing_from_fresh=ctx.stats["D-treg.differs"],
+        training_configurations=len(train_cfgs(tier)),
         t_canon_pairs_validated=ctx.stats["T.canon_pairs_validated"],
         d_executions=d_exec,
-        profiles=len(PROFILE_SPECS[:2] if tier == "quick" else PROFILE_SPECS),
+        profiles=len(D_PROFILES[tier]),
+        t_profiles=len(tmodel.pis),
         rule_sets=len(rule_sets(tier)),
         training_windows=len(train_windows(tier)),
     )
     if not a["fixpoint"]:
         ctx.coverage["caps_hit"] = (f"engine A is depth-bounded: depth {a['depth_completed']} completed from {a['roots']} roots, "
-                                    f"{a['frontier_left']} frontier states unexpanded (the D spaces are enumerated completely, the bare-TCell "
+                                    f"{a['frontier_left']} frontier states unexpanded; engine X: depth {x['depth_completed']} from {x['roots']} roots, "
+                                    f"{x['frontier_left']} unexpanded (the D spaces are enumerated completely, the bare-TCell "
                                     f"history search T reached its fixpoint)")
     ctx.note(f"boundary fingerprints (a value exactly on a bound, nothing outside): {ctx.stats['D-tcell.boundary']} cases, "
              f"{ctx.stats['D-tcell.boundary_inside']} answered none — the code reads bounds inclusively; not judged either way")
@@ -920,24 +1202,38 @@ def run(ctx):
     ctx.note(f"stable-agent auto-tolerance maps any SUSPICIOUS response to IGNORE: {ctx.stats['D-treg.multi']} enumerated "
              "evaluate() calls lower the action by more than one step, all on level/action pairs no T cell produces "
              "(e.g. suspicious/isolate) unless reported as a violation")
+    if ctx.stats["D-treg.differs"]:
+        ctx.note(f"{ctx.stats['D-treg.differs']} evaluate() calls on a Treg / record that had evaluated other responses before "
+                 "answered differently from fresh objects (judged under the same clauses; the difference itself is not asserted)")
+    ctx.note("a watcher is also held to be desensitised once as many false alarms (inspection certainly outside the baseline "
+             "with no arguable second signal, then reset_without_confirmation) were dismissed as its configured anergy_threshold, "
+             "counted from the calls alone; on this tree that always coincides with, or is implied by, is_anergic")
     ctx.assumptions += [
         "finite moderate float fields only (NaN/inf fingerprints and observations are outside the explored alphabet)",
         "the fingerprint of the current window is taken from MHCDisplay.generate_peptide() (the library's own display)",
-        "desensitised = the watcher's public is_anergic property; repeated anomaly = consecutive inspections whose "
+        "desensitised = the watcher's public is_anergic property, or anergy_threshold dismissed false alarms in the history "
+        "of calls; baseline and thresholds = the ones the watcher was created with (private copy taken at construction / "
+        "right after training), an ImmuneSystem-built watcher needs at least 2 anomalies for 'repeated'; "
+        "repeated anomaly = consecutive inspections whose "
         "fingerprint violates the baseline, counted from the calls alone since the last reset() / "
         "reset_without_confirmation() / in-baseline inspection (/ successful retraining), >= the configured "
         "repeated_anomaly_threshold; a bare TCell has no immune memory, so no remembered threat",
         "reference is permissive where the text is silent: a manual flag survives retraining and false-alarm resets, "
         "a remembered threat = same (vocabulary, structure) hashes as an earlier confirmed/critical report",
-        "engine A: one agent, window_size=2, observation alphabet of 4-5 kinds, <=2 canary results, TCell default thresholds 3/5 "
-        "(anergy reached through root prefixes built from public operations)",
+        "engine A: one agent, window_size=2 (roots with window_size=1 / stability threshold 0 / memory capacity 1 / Thymus "
+        "tolerance 0), observation alphabet of 4-5 kinds, <=2 canary results, TCell default thresholds 3/5 "
+        "(anergy reached through root prefixes built from public operations); engine X: the other agent / system only "
+        "records slow observations, is inspected and flagged during the search (everything else through root prefixes)",
+        "not explored: ImmuneMemory.prune_old / import_signatures (they only remove or inject remembered threats; every clause "
+        "is one-directional, forgetting cannot violate it), TCell constructed with non-zero counters or a preset flag "
+        "(the same states are reached through public calls), silence caused by another agent's state (silence never violates)",
     ]
 
 
 def replay(ctx, case):
     eng = case.get("engine", "A") if isinstance(case, dict) else "A"
-    if eng == "A" and len(case["root"]) == 3 and all(isinstance(x, int) for x in case["root"]):
-        # a bare-TCell history: root = (profile index, repeated_anomaly_threshold, anergy_threshold)
+    if eng == "A" and len(case["root"]) in (3, 4) and all(isinstance(x, int) for x in case["root"]):
+        # a bare-TCell history: root = (profile index, repeated_anomaly_threshold, anergy_threshold[, sibling])
         return explore.replay_case(TModel(ctx.tier), {"root": list(case["root"]), "hist": case["hist"], "op": case["op"]})
     if eng == "A":
         return explore.replay_case(AModel(ctx.tier), {"root": case["root"], "hist": case["hist"], "op": case["op"]})
@@ -946,7 +1242,8 @@ def replay(ctx, case):
         v, _, _ = tcell_case(mk_profile(spec), tuple(case["thr"]), case["anergy"], case["streak"], case["flag"], tuple(case["fp"]))
         return v
     if eng == "D-treg":
-        v, _, _ = treg_case(case["level"], case["action"], tuple(tuple(r) for r in case["rules"]), tuple(case["record"]))
+        v, _, _ = treg_case(case["level"], case["action"], tuple(tuple(r) for r in case["rules"]), tuple(case["record"]),
+                            tuple(case.get("opt", ("bool", "none"))), tuple(tuple(p) for p in case.get("prefix", ())))
         return v
     if eng == "D-train":
         v, _, _ = train_case(tuple(case["cfg"]), [tuple(o) for o in case["window"]], tuple(case["canaries"]))
